@@ -298,7 +298,7 @@ def diag(ctx, case, rec):
 # ------------------------------------------------------------------------------ run
 def run(ctx):
     po = C.proof_obligations(ctx.prop)
-    ncases = 1500 if ctx.quick else 15000
+    ncases = 3000 if ctx.quick else 24000
     cases, recs = [], []
     stats = dict(kinds={}, flags={}, wkinds={}, shapes={}, gated={}, errors=0, rank_deficient_Kmm=0,
                  penrose_residual_max=[0.0, 0.0, 0.0, 0.0], test_is_train_rows=0)
